@@ -62,6 +62,8 @@ class World(object):
         self.step_callbacks = []
         self.step_loads = []         # (host, kind) snapshot loads during the current event
         self.step_states = []        # (host, old, new) raft state changes during the event
+        self.chunks_out = {}         # (sender host, receiver id) -> chunks of the big entry being sent
+        self.snap_sent = None
         self.digest = hashlib.sha256()
         self.trace = []              # executed events with outcomes
         self.keep_trace = True
